@@ -113,5 +113,16 @@ CLAIMED["C14"] = dict(
          "latency (not modelled). Release of sockets/tasks on timeout = drop of the futures (Rust ownership), observed only as "
          "'no call after the exchange ended' in the logs.",
 )
+CLAIMED["C08"] = dict(
+    text="Unbounded Lean theorems about the request-accumulation loop over an abstract prefix-consistent head parser: for every split "
+         "of head ++ payload into reads the same head is recognised and the bytes handed to the upload side are exactly the payload "
+         "(head_segmentation_invariant, payload_exact); a strict prefix of a head makes the codec wait, never err or answer early; every "
+         "non-returning iteration awaits the transport (no_spin); the buffered head never exceeds the limit by more than one read and an "
+         "incomplete head at the limit is rejected; encode_response output is parsed back line by line. Tied to http1_codec.rs by ~2.4k "
+         "real sessions per run (head length and upload payload compared with the model, request fields and response checked by an "
+         "oracle, watchdog for busy loops).",
+    note="Trusted: Lean kernel, harness/door, httparse (PrefixConsistent is a hypothesis, exercised), tokio channels/select. MAX_RAW_HEADERS_SIZE "
+         "is re-extracted from the source into TT/Gen/Consts.lean on every run.",
+)
 NOT_CLAIMED = {p: "not yet built in this framework (planned, see DESIGN.md section 5)" for p in
-               ["C01", "C07", "C08", "C09", "C10", "C16", "C17", "C18", "C19", "C20"]}
+               ["C01", "C07", "C09", "C10", "C16", "C17", "C18", "C19", "C20"]}
